@@ -197,10 +197,15 @@ def mutate_field(enc, t, cls, rnd):
             return w_str(b"\x7f" + rbytes(rnd, rnd.choice([2500, 9000]))), False
         unit = b"a," if t == "namelist" else rnd.choice([b"A", b"\xc3\xa9", b"\x00"])
         return w_str(unit * rnd.choice([40000, 100000])), False
+    if cls == "vendor_name":
+        return w_str(rnd.choice(["vendor-method@example", "publickey,otp@example.com", "securid", "password,x-vendor"])), False
+    if cls == "wrong_case":
+        return w_str(rnd.choice(["Password", "PASSWORD", "publickey,Password", "PublicKey"])), False
     if cls == "unknown_only":
         return w_str(rnd.choice(["bogus@example.com", "none,bogus", "x"])), False
     if cls == "empty_elements":
-        return w_str(rnd.choice([",", ",,,", data.decode("ascii", "replace") + ",", "," + data.decode("ascii", "replace")])), False
+        txt = data.decode("ascii", "replace")
+        return w_str(rnd.choice([",", ",,,", txt + ",", "," + txt, txt.replace(",", ",,", 1) if "," in txt else txt + ",,x"])), False
     if cls == "negative":
         return w_str(bytes([0x80 | rnd.getrandbits(7)]) + rbytes(rnd, rnd.choice([0, 7, 128, 256]))), False
     if cls == "one":
@@ -725,6 +730,8 @@ def template(msg, pair, chan=0):
     if base == "USERAUTH_SUCCESS":
         return b""
     if base == "USERAUTH_FAILURE":
+        if kind == "partial":
+            return w_str("publickey,password") + b"\x01"
         return w_str("password,publickey,keyboard-interactive") + b"\x00"
     if base == "USERAUTH_BANNER":
         return w_str("welcome\n") + w_str("en")
@@ -954,7 +961,7 @@ class Stagehand:
                 ah._parse_userauth_request = swallow
                 ah._parse_userauth_info_response = swallow
                 call = {"none": "auth_none", "password": "auth_password", "publickey": "auth_publickey",
-                        "kbdint": "auth_interactive", "password-kbdint": "auth_password"}[method]
+                        "kbdint": "auth_interactive", "password-kbdint": "auth_password"}[method.split("@")[0]]
                 pair.victim_api(call)
                 if not pair.wait_attacker_got(5 if stage == "service" else 50):
                     raise RuntimeError("client sent no %s" % ("SERVICE_REQUEST" if stage == "service" else "USERAUTH_REQUEST"))
@@ -1084,6 +1091,10 @@ def post_case(case, rnd, hand, suite=None):
             body = mutate_payload(template(msg, pair, chan), types, idx, cls, rnd)
             wire = (bytes([type_no(msg)]) + body)[:300].hex()
             reached, stuck = pair.deliver(type_no(msg), body)
+            if pair.api is not None and msg.startswith(("USERAUTH_FAILURE", "USERAUTH_SUCCESS")):
+                # these replies complete the auth call: let it finish on its own (its tail runs in the caller's thread)
+                # before the peer goes away, otherwise the lost connection would pre-empt the reply's own outcome
+                pair.api.done.wait(3.0)
             if stage == "deferred" and reached and not stuck and pair.victim.is_active():
                 # the message was stored; now the application makes the call that parses what was stored
                 later = method.split("@")[0]
